@@ -1,15 +1,18 @@
-import sys, json
+import sys, json, time
 from vf.checks.c19 import CHECK
 from vf.runner import _safe_run, _jsonable
 CHECK.setup_worker()
-for name in sys.argv[1:]:
-    spec = {'script': name, 'seed': 1} if not name.isdigit() else {'seed': int(name), 'len': 20, 'prelude': True, 'demo': False, 'tls': False}
-    res = _safe_run(CHECK, spec)
-    if res.get('harness_error'): print(res['harness_error'])
-    for v in res['violations']:
-        print('VIOL', v['mech'], '--', v['detail'][:500])
-        print('\n'.join(v['witness']['program']))
-        print('\n'.join(v['witness']['transcript'][-30:]))
-    print(name, 'aborted', res['aborted'], res['counters'])
-    if not res['violations']:
-        print('\n'.join(res['sample']['program']))
+spec = json.loads(sys.argv[1])
+want = sys.argv[2] if len(sys.argv) > 2 else None
+t=time.time()
+res = _safe_run(CHECK, spec)
+print('time %.2f' % (time.time()-t))
+if res.get('harness_error'): print(res['harness_error'])
+for v in res['violations']:
+    if want and want not in v['mech']: continue
+    print('VIOL', v['mech'], '--', v['detail'][:700])
+    print('\n'.join(v['witness']['program'][-12:]))
+    print('\n'.join(x[:400] for x in v['witness']['transcript'][-14:]))
+print('aborted', res['aborted'], res['counters'])
+if not res['violations']:
+    print('\n'.join(res['sample']['program']))
